@@ -63,10 +63,16 @@ def run_scope(pid, tier):
         else:
             if g["args"][1]["ty"] != {"k": "cptr", "t": want} or g["ret"] != {"k": "mptr", "t": want}:
                 problems.append(f"g's parameter/return refer to {g['args'][1]['ty']} / {g['ret']}, expected {'::'.join(bound)}")
+        mfile = next((f.get("proj") for f in obs.get("files", []) if f["rel"] == "m.rs"), None) or {}
+        gx = next((e for e in mfile.get("evals", []) if e["name"] == "gx"), None)
+        if gx is None:
+            problems.append("accessor get_gx missing")
+        elif gx["ret"].get("t") != {"k": "cptr", "t": want}:
+            problems.append(f"get_gx() returns {gx['ret']}, the scoping rules select {'::'.join(bound)}")
         if problems:
             res.violation("; ".join(problems[:3]), payload(case, obs))
         if cid % 701 == 0:
-            res.sample({"uses": case["input"]["mods"][0]["uses"], "defined_in": case["input"]["gen"]["defs"],
+            res.sample({"uses": next(m["uses"] for m in case["input"]["mods"] if m["path"] == ["m"]), "defined_in": case["input"]["gen"]["defs"],
                         "name": case["input"]["gen"]["name"], "binds_to": bound})
     if pid == "C19":
         for key, variants in groups.items():
